@@ -282,6 +282,7 @@ func gen(r *hx.Run) []json.RawMessage {
 type effects struct {
 	addKeys, delKeys []string
 	addMeas, delMeas []string
+	dropMeas         bool // the operation may be inside Partition.DropMeasurement
 }
 
 // snapshot: what a reading of the index must contain (req) and may contain (alw).
@@ -485,6 +486,7 @@ func (w *world) doOp(c int, p op) {
 		}
 		if p.C && last {
 			e.delMeas = []string{name}
+			e.dropMeas = true
 		}
 		w.begin(e)
 		err := w.idx.DropSeries(id, []byte(x.key), p.C)
@@ -494,9 +496,7 @@ func (w *world) doOp(c int, p op) {
 			return
 		}
 		delete(w.live, x.key)
-		if !p.X {
-			w.linger[x.key] = true
-		}
+		w.linger[x.key] = true // until the series file has deleted the id too
 		if !p.C && isLive {
 			w.cacheSuspect[x.key] = w.cache > 0
 		}
@@ -508,12 +508,18 @@ func (w *world) doOp(c int, p op) {
 			if _, err := w.sf.DeleteSeriesID(id, tsdb.Flush); err != nil {
 				r.Violate("C14:drop-error", "sfile-delete-error", "SeriesFile.DeleteSeriesID failed: %v", err)
 			}
+			if _, again := w.live[x.key]; !again {
+				delete(w.linger, x.key)
+			}
 			r.Probe("probe_sfile_deletes")
 		}
 		r.Logf("%s drop series %s id=%d cascade=%v live=%v sfile=%v", who, x.key, id, p.C, isLive, p.X)
 		r.Probe("probe_series_drops")
 	case "dm":
-		e := &effects{delKeys: w.liveOf(name), delMeas: []string{name}}
+		if !w.meas[name] {
+			return // the engine does not drop a measurement it does not have
+		}
+		e := &effects{delKeys: w.liveOf(name), delMeas: []string{name}, dropMeas: true}
 		ids := map[string]uint64{}
 		for _, k := range e.delKeys {
 			ids[k] = w.live[k]
@@ -548,14 +554,15 @@ func (w *world) doOp(c int, p op) {
 			if raw {
 				w.rawDropped[k] = true
 			}
-			if !p.X {
-				w.linger[k] = true
-			}
+			w.linger[k] = true // until the series file has deleted the id too
 		}
 		delete(w.meas, name)
 		if p.X { // the model is up to date before the series file is touched (crash cuts)
 			for _, k := range e.delKeys {
 				w.sf.DeleteSeriesID(ids[k], tsdb.Flush)
+				if _, again := w.live[k]; !again {
+					delete(w.linger, k)
+				}
 			}
 		}
 		r.Logf("%s drop measurement %s (%d series) raw=%v sfile=%v", who, name, len(e.delKeys), raw, p.X)
@@ -564,10 +571,14 @@ func (w *world) doOp(c int, p op) {
 			r.Probe("probe_raw_drop_of_nonempty_measurement")
 		}
 	case "dmi":
+		if !w.meas[name] {
+			return
+		}
 		e := &effects{}
 		want := len(w.liveOf(name)) == 0
 		if want {
 			e.delMeas = []string{name}
+			e.dropMeas = true
 		}
 		w.begin(e)
 		dropped, err := w.idx.DropMeasurementIfSeriesNotExist([]byte(name))
@@ -985,6 +996,14 @@ func (w *world) hook(f *simfs.FS, ev *simfs.Event) error {
 	if len(w.images) >= w.imgCap {
 		return nil
 	}
+	if r.CfgBool("nodmcut") {
+		// known finding: a crash inside Partition.DropMeasurement leaves tag key/value tombstones behind
+		for _, e := range w.inflight {
+			if e.dropMeas {
+				return nil
+			}
+		}
+	}
 	fk := fileKind(ev.Path)
 	den := w.cutDen
 	if fk == "log" && (ev.Op == "untracked" || ev.Op == "write") {
@@ -1024,6 +1043,14 @@ func (w *world) hook(f *simfs.FS, ev *simfs.Event) error {
 	}
 	if len(w.inflight) > 0 {
 		r.Probe("probe_cut_with_operation_in_flight")
+	}
+	for _, e := range w.inflight {
+		if e.dropMeas {
+			r.Probe("probe_cut_inside_measurement_drop")
+			kind += ":in-measurement-drop"
+			w.images[len(w.images)-1].kind = kind
+			break
+		}
 	}
 	r.MixSig("cut:"+kind, uint64(ev.N)<<20|uint64(tear))
 	return nil
